@@ -12,6 +12,7 @@ let () =
            | "T" :: rest -> Tools_cmd.run rest
            | "W" :: rest -> (try Cmds.run_w rest with Syntax.Bad m -> "BADCASE " ^ m)
            | "R" :: rest -> (try Cmds.run_r ~cap:false rest with Syntax.Bad m -> "BADCASE " ^ m)
+           | "K" :: rest -> (try Cmds.run_r ~cap:false rest with Syntax.Bad m -> "BADCASE " ^ m)
            | "M" :: rest -> (try Cmds.run_r ~cap:true rest with Syntax.Bad m -> "BADCASE " ^ m)
            | "A" :: rest -> (try Cmds.run_a rest with Syntax.Bad m -> "BADCASE " ^ m)
            | "X" :: rest -> (try Cmds.run_x rest with Syntax.Bad m -> "BADCASE " ^ m)
